@@ -112,7 +112,10 @@ class BinningBase:
     def __getitem__(self, index: Union[slice, int]):
         if isinstance(index, slice):
             new_binning = self.as_static()
-            new_binning._bins = new_binning.bins[index]
+            new_bins = new_binning.bins[index]
+            if not is_rising(new_bins):
+                raise ValueError("The selected bins must keep their rising order.")
+            new_binning._bins = new_bins
             return new_binning
         return self.bins[index]
 
@@ -415,8 +418,13 @@ class StaticBinning(BinningBase):
         )
 
     def __getitem__(self, item):
+        if isinstance(item, (int, np.integer)):
+            return self._bins[item]  # One bin, as in BinningBase
+        new_bins = self._bins[item]
+        if new_bins.ndim != 2 or not is_rising(new_bins):
+            raise ValueError("The selected bins must keep their rising order.")
         copy = self.copy()
-        copy._bins = self._bins[item]
+        copy._bins = new_bins
         # TODO: check for the right_edge??
         return copy
 
